@@ -37,8 +37,8 @@ pub fn str_slice(
     mut args: Args,
     _return_type: &TypeScheme,
 ) -> Result<Value, Box<RuntimeErrorKind>> {
-    let start = quantity_arg!(args).unsafe_value().to_f64() as usize;
-    let end = quantity_arg!(args).unsafe_value().to_f64() as usize;
+    let start = scalar_arg!(args).to_f64() as usize;
+    let end = scalar_arg!(args).to_f64() as usize;
     let input = string_arg!(args);
 
     let output = input.get(start..end).unwrap_or_default();
@@ -51,7 +51,7 @@ pub fn chr(
     mut args: Args,
     _return_type: &TypeScheme,
 ) -> Result<Value, Box<RuntimeErrorKind>> {
-    let idx = quantity_arg!(args).unsafe_value().to_f64() as u32;
+    let idx = scalar_arg!(args).to_f64() as u32;
 
     let output = char::from_u32(idx).unwrap_or('�');
 
